@@ -253,7 +253,7 @@ impl Curve3 {
 
     pub fn simplify(&self, tol: f64) -> Self {
         let new_points = ramer_douglas_peucker(self.line.vertices(), tol);
-        Self::from_points(&new_points, tol).unwrap()
+        Self::from_points(&new_points, self.tol).unwrap()
     }
 
 }
